@@ -27,6 +27,10 @@ type ssCfg struct {
 	MaxTx   uint32 `json:"maxtx,omitempty"`   // WithMaxTxPacket / WithRSMaxTxPacket
 	Tree    string `json:"tree,omitempty"`    // "" standard tree | "empty"
 	InMem   bool   `json:"inmem,omitempty"`   // rs only: the package's own InMemHandler (witness cases; no handler oracles)
+	// rs only: this percentage of the reader/writer/rw/lister objects (chosen by CloseErrSeed and the
+	// object's serial number) return an error from their FIRST Close.
+	CloseErr     int    `json:"close_err,omitempty"`
+	CloseErrSeed uint32 `json:"close_err_seed,omitempty"`
 }
 
 func (c ssCfg) String() string {
@@ -46,6 +50,9 @@ func (c ssCfg) String() string {
 	if c.InMem {
 		s += "+inmem"
 	}
+	if c.CloseErr != 0 {
+		s += fmt.Sprintf("+closeerr%d", c.CloseErr)
+	}
 	return s
 }
 
@@ -61,6 +68,27 @@ type ssStep struct {
 	Len uint32 `json:"len,omitempty"` // READ length / WRITE data length / attribute size
 	AF  uint32 `json:"af,omitempty"`  // attribute flags
 	Ext string `json:"ext,omitempty"` // extended request name
+	// Burst > 1: the request is sent Burst times (distinct ids) in ONE write, i.e. pipelined, and the
+	// Burst replies are collected afterwards.  Only for requests whose handle was issued earlier.
+	Burst int `json:"burst,omitempty"`
+}
+
+// ssBurstID is the request id of copy k of a burst step.
+func ssBurstID(i, k int) uint32 { return ssID(i) + uint32(k)*100000 }
+
+// frames renders the step as the frames of one write: one frame, or Burst copies with distinct ids.
+func (s ssStep) frames(i int, cfg ssCfg, tree string, handles map[int]string) [][]byte {
+	f := s.frame(i, cfg, tree, handles)
+	if s.Burst <= 1 || s.Op == "init" {
+		return [][]byte{f}
+	}
+	out := make([][]byte, s.Burst)
+	for k := range out {
+		g := append([]byte(nil), f...)
+		binary.BigEndian.PutUint32(g[5:], ssBurstID(i, k))
+		out[k] = g
+	}
+	return out
 }
 
 var ssOpType = map[string]byte{
@@ -363,6 +391,75 @@ func ssGen(rnd *rand.Rand, o ssGenOpts) []ssStep {
 		for len(open) > 0 {
 			closeAt(rnd.Intn(len(open)))
 		}
+	}
+	return steps
+}
+
+// ssGenChurn produces the "worn handle" flavour: for a read, a write, a read-write and a directory
+// handle in turn — open it; use it 32 times one request at a time (the requests rotate through
+// all eight pool workers, so every worker has served the handle) and 16 times pipelined; CLOSE it;
+// then name it in 16 more sequential and 16 more pipelined requests, CLOSE it again, and use it once
+// more.  Everything after the first CLOSE must be refused without touching the handler object —
+// also when that object's Close returned an error (ssCfg.CloseErr).  A "keeper" handle stays open
+// throughout, so that the end-of-session sweep always has something to do.
+func ssGenChurn(rnd *rand.Rand, closeAll bool) []ssStep {
+	steps := []ssStep{{Op: "init"}}
+	add := func(s ssStep) int { steps = append(steps, s); return len(steps) - 1 }
+	keeper := add(ssStep{Op: "open", P1: "b.bin", Pf: wire.FRead})
+	kinds := []string{"r", "w", "rw", "dir"}
+	rnd.Shuffle(len(kinds), func(a, b int) { kinds[a], kinds[b] = kinds[b], kinds[a] })
+	nNew := 0
+	for _, kind := range kinds {
+		var h int
+		switch kind {
+		case "r":
+			h = add(ssStep{Op: "open", P1: []string{"a.txt", "b.bin", "d/y"}[rnd.Intn(3)], Pf: wire.FRead})
+		case "w":
+			nNew++
+			h = add(ssStep{Op: "open", P1: fmt.Sprintf("n%d", nNew), Pf: wire.FWrite | wire.FCreat | wire.FTrunc, AF: wire.APerm})
+		case "rw":
+			nNew++
+			h = add(ssStep{Op: "open", P1: fmt.Sprintf("n%d", nNew), Pf: wire.FRead | wire.FWrite | wire.FCreat})
+		case "dir":
+			h = add(ssStep{Op: "opendir", P1: "d"})
+		}
+		use := func(n int, burst int) {
+			for x := 0; x < n; x++ {
+				op := map[string]string{"r": "read", "w": "write", "dir": "readdir"}[kind]
+				if kind == "rw" {
+					op = []string{"write", "read"}[x%2]
+				}
+				s := ssStep{Op: op, H: h, Burst: burst}
+				if op != "readdir" {
+					s.Off, s.Len = uint64(rnd.Intn(24)), uint32(1+rnd.Intn(24))
+				}
+				add(s)
+			}
+		}
+		seq := 32
+		if kind == "dir" { // READDIR runs on the single command worker
+			seq = 6
+		}
+		use(seq, 0)
+		use(1, 16)
+		if kind == "rw" {
+			use(1, 16)
+		}
+		add(ssStep{Op: "read", H: keeper, Off: 0, Len: 8})
+		add(ssStep{Op: "close", H: h})
+		use(seq/2, 0)
+		add(ssStep{Op: "fstat", H: h})
+		add(ssStep{Op: "fsetstat", H: h, AF: wire.ASize, Len: 3})
+		use(1, 16)
+		if kind == "rw" {
+			use(1, 16)
+		}
+		add(ssStep{Op: "close", H: h})
+		use(1, 0)
+		add(ssStep{Op: "close", H: h, Burst: 4})
+	}
+	if closeAll {
+		add(ssStep{Op: "close", H: keeper})
 	}
 	return steps
 }
